@@ -885,3 +885,88 @@ Proof.
   - rewrite H. reflexivity.
 Qed.
 
+
+(* ---------------------------------------------------------------- App.Run over a history of resizes *)
+
+Lemma apprun_fst_wf i : 0 <= fst (fst i) -> 0 <= snd (fst i) -> tree_wf_b (snd i) = true ->
+  fst (apprun_run i) = 0.
+Proof.
+  destruct i as [[cols rows] s]. cbn [fst snd]. intros Hc Hr Hwf.
+  pose proof (apprun_run_ok cols rows s Hc Hr) as H.
+  destruct (apprun_run (cols, rows, s)) as [out scr]. cbn [fst].
+  unfold apprun_ok in H. apply andb_prop in H. destruct H as [H _].
+  unfold renderwin_ok in H. rewrite Hwf in H.
+  destruct (win_org (win_chain cols rows [(0, 0, s_w s, s_h s)])) as [ox oy].
+  repeat (apply andb_prop in H; destruct H as [H ?]). apply Z.eqb_eq in H. exact H.
+Qed.
+
+Lemma apphist_frames_run_ok inp : sizes_nonneg inp = true ->
+  apphist_frames_ok inp (map snd (map apprun_run inp)) = true \/
+  exists i, In i inp /\ fst (apprun_run i) <> 0.
+Proof.
+  induction inp as [|i inp IH]; intros Hs; [left; reflexivity|].
+  cbn [sizes_nonneg forallb] in Hs. apply andb_prop in Hs. destruct Hs as [Hi Hs].
+  apply andb_prop in Hi. destruct Hi as [Hc Hr]. apply Z.leb_le in Hc. apply Z.leb_le in Hr.
+  destruct (Z.eq_dec (fst (apprun_run i)) 0) as [E0|N0].
+  - destruct (IH Hs) as [H|(j & Hj & Hn)].
+    + left. cbn [map apphist_frames_ok]. rewrite H, andb_true_r.
+      destruct i as [[cols rows] s]. cbn [fst snd] in *.
+      pose proof (apprun_run_ok cols rows s Hc Hr) as Hok.
+      destruct (apprun_run (cols, rows, s)) as [out scr]. cbn [fst snd] in *. subst out. exact Hok.
+    + right. exists j. split; [right; exact Hj|exact Hn].
+  - right. exists i. split; [left; reflexivity|exact N0].
+Qed.
+
+Lemma apphist_run_ok inp : sizes_nonneg inp = true -> apphist_ok (inp, apphist_run inp) = true.
+Proof.
+  intros Hs. unfold apphist_ok, apphist_run.
+  destruct (forallb (fun i : render_input => tree_wf_b (snd i)) inp) eqn:Ewf;
+    [|destruct (existsb _ _); reflexivity].
+  assert (Hall : forall i, In i inp -> fst (apprun_run i) = 0).
+  { intros i Hi. rewrite forallb_forall in Ewf. unfold sizes_nonneg in Hs. rewrite forallb_forall in Hs.
+    specialize (Hs i Hi). apply andb_prop in Hs. destruct Hs as [Hc Hr].
+    apply Z.leb_le in Hc. apply Z.leb_le in Hr. apply apprun_fst_wf; auto. }
+  assert (Eex : existsb (fun r : render_obs => fst r =? 1) (map apprun_run inp) = false).
+  { apply not_true_is_false. intros H. apply existsb_exists in H. destruct H as (r & Hr & H1).
+    apply in_map_iff in Hr. destruct Hr as (i & <- & Hi). rewrite (Hall i Hi) in H1. discriminate. }
+  rewrite Eex. cbn [Z.eqb andb].
+  destruct (apphist_frames_run_ok inp Hs) as [H|(j & Hj & Hn)]; [exact H|].
+  exfalso. apply Hn. apply Hall. exact Hj.
+Qed.
+
+(* the model's history has no disagreement with itself and every frame depends on its own step only *)
+Lemma apphist_run_frame inp k i : sizes_nonneg inp = true ->
+  forallb (fun i : render_input => tree_wf_b (snd i)) inp = true ->
+  nth_error inp k = Some i ->
+  fst (apphist_run inp) = 0 /\ nth_error (snd (apphist_run inp)) k = Some (snd (apprun_run i)).
+Proof.
+  intros Hs Ewf Hk. unfold apphist_run.
+  assert (Eex : existsb (fun r : render_obs => fst r =? 1) (map apprun_run inp) = false).
+  { apply not_true_is_false. intros H. apply existsb_exists in H. destruct H as (r & Hr & H1).
+    apply in_map_iff in Hr. destruct Hr as (j & <- & Hj).
+    rewrite forallb_forall in Ewf. unfold sizes_nonneg in Hs. rewrite forallb_forall in Hs.
+    specialize (Hs j Hj). apply andb_prop in Hs. destruct Hs as [Hc Hr].
+    apply Z.leb_le in Hc. apply Z.leb_le in Hr. rewrite (apprun_fst_wf j Hc Hr (Ewf j Hj)) in H1. discriminate. }
+  rewrite Eex. cbn [fst snd]. split; [reflexivity|].
+  rewrite !map_map. rewrite nth_error_map, Hk. reflexivity.
+Qed.
+
+Example apphist_cached_refuted :
+  sizes_nonneg grow_hist = true /\
+  apphist_run grow_hist = (0, [[[1;2;3;4;5];[6;7;8;9;10]]; [[11;12;13]]; [[21;22;23;24;25;26];[27;28;29;30;41;42]]]) /\
+  apphist_cached_run grow_hist = (0, [[[1;2;3;4;5];[6;7;8;9;10]]; [[11;12;13]]; [[21;22;23;0;0;0];[0;0;0;0;0;0]]]) /\
+  apphist_ok (grow_hist, apphist_cached_run grow_hist) = false /\
+  apphist_obs_eqb (apphist_run grow_hist) (apphist_cached_run grow_hist) = false.
+Proof. repeat split; vm_compute; reflexivity. Qed.
+
+(* z-order is the mathematical order of the integers: an overlay at MaxInt (2^63-1) over a
+   background at -1, whichever is added first; MinInt below everything *)
+Example z_extreme_order :
+  let maxint := 9223372036854775807 in let minint := -9223372036854775808 in
+  let bg := Surf 2 1 [7;8] [] in let ov := Surf 1 1 [9] [] in let lo := Surf 2 1 [5;6] [] in
+  stable_perm [-1; maxint] = [0%nat; 1%nat] /\ stable_perm [maxint; -1] = [1%nat; 0%nat] /\
+  stable_perm [-1; maxint; 0] = [0%nat; 2%nat; 1%nat] /\ stable_perm [1; minint; maxint; -1] = [1%nat; 3%nat; 0%nat; 2%nat] /\
+  render_run (3, 1, Surf 3 1 [1;2;3] [(0, 0, -1, bg); (0, 0, maxint, ov)]) = (0, [[9;8;3]]) /\
+  render_run (3, 1, Surf 3 1 [1;2;3] [(0, 0, maxint, ov); (0, 0, -1, bg)]) = (0, [[9;8;3]]) /\
+  render_run (3, 1, Surf 3 1 [1;2;3] [(0, 0, -1, bg); (0, 0, maxint, ov); (0, 0, minint, lo)]) = (0, [[9;8;3]]).
+Proof. cbv zeta. repeat split; vm_compute; reflexivity. Qed.
